@@ -3611,6 +3611,26 @@ void Interpreter::call_destructor(const std::string &var_name,
                 }
 
                 auto generic_it = struct_destructors_.find(generic_name);
+                if (generic_it == struct_destructors_.end() ||
+                    !generic_it->second) {
+                    // 型パラメータが T 1個でない場合（例: Map<K, V>）は、
+                    // ジェネリック定義の型パラメータ名で登録名を組み立てる
+                    const StructDefinition *generic_def =
+                        get_struct_definition(base_name);
+                    if (generic_def && generic_def->is_generic &&
+                        !generic_def->type_parameters.empty()) {
+                        generic_name = base_name + "<";
+                        for (size_t i = 0;
+                             i < generic_def->type_parameters.size(); ++i) {
+                            if (i > 0) {
+                                generic_name += ", ";
+                            }
+                            generic_name += generic_def->type_parameters[i];
+                        }
+                        generic_name += ">";
+                        generic_it = struct_destructors_.find(generic_name);
+                    }
+                }
                 if (generic_it != struct_destructors_.end() &&
                     generic_it->second) {
                     // ジェネリックデストラクタをこの具体型用に登録
@@ -3738,9 +3758,18 @@ void Interpreter::call_destructor(const std::string &var_name,
                     }
                 }
 
-                // T, U, V... にマッピング
-                const char *param_names[] = {"T", "U", "V", "W"};
-                for (size_t i = 0; i < params.size() && i < 4; i++) {
+                // ジェネリック定義の型パラメータ名（例: Map<K, V> の K, V）に
+                // マッピング。定義が見つからない場合は T, U, V, W
+                std::vector<std::string> param_names = {"T", "U", "V", "W"};
+                if (const StructDefinition *generic_def = get_struct_definition(
+                        type_name.substr(0, start))) {
+                    if (generic_def->is_generic &&
+                        generic_def->type_parameters.size() == params.size()) {
+                        param_names = generic_def->type_parameters;
+                    }
+                }
+                for (size_t i = 0;
+                     i < params.size() && i < param_names.size(); i++) {
                     type_ctx.type_map[param_names[i]] = params[i];
 
                     if (debug_mode) {
@@ -3748,7 +3777,8 @@ void Interpreter::call_destructor(const std::string &var_name,
                             char dbg_buf[512];
                             snprintf(dbg_buf, sizeof(dbg_buf),
                                      "[DESTRUCTOR] TypeContext: %s = %s",
-                                     param_names[i], params[i].c_str());
+                                     param_names[i].c_str(),
+                                     params[i].c_str());
                             debug_msg(DebugMsgId::GENERIC_DEBUG, dbg_buf);
                         }
                     }
